@@ -53,8 +53,12 @@ type c09Task struct {
 func (t *c09Task) Run(tid uint64) error {
 	atomic.AddInt32(&t.c.count[t.id], 1)
 	atomic.StoreInt32(&t.c.started[t.id], 1)
+	atomic.AddInt32(&t.c.nStarted, 1)
 	for k := 0; k < t.children; k++ {
 		t.c.add()
+	}
+	if t.waitFor == -2 {
+		<-t.c.gate // a task that keeps its worker busy until the case opens the gate
 	}
 	if t.waitFor >= 0 {
 		// dependent task: another worker has to start the other task while this one is running
@@ -89,6 +93,8 @@ type c09Case struct {
 	count  [c09MaxTasks]int32
 	started [c09MaxTasks]int32
 	depTimeout int32
+	nStarted   int32
+	gate   chan struct{}
 	win    string // directed schedules: was the intended window hit (1/0), na otherwise
 	rsMid  bool   // a mid-case worker count check failed
 	rsAlt  []int  // concurrent resizers: acceptable final counts
@@ -107,7 +113,7 @@ type c09Case struct {
 }
 
 func newC09Case() *c09Case {
-	c := &c09Case{s: newC09Sched(), wa: "na", ja: "na", lastSet: -1, win: "na"}
+	c := &c09Case{s: newC09Sched(), wa: "na", ja: "na", lastSet: -1, win: "na", gate: make(chan struct{})}
 	c.tp = pool.NewThreadPool()
 	c.s.Adopt()
 	verifhook.SetHandler(c.s.handle)
@@ -203,6 +209,14 @@ func (c *c09Case) joinAll() {
 	c.mu.Unlock()
 }
 
+// setThread publishes the calling goroutine's thread label (read by awaitJoin under c.mu)
+func (c *c09Case) setThread(p *string) {
+	th := c.s.ThreadOf(c09Goid())
+	c.mu.Lock()
+	*p = th
+	c.mu.Unlock()
+}
+
 func (c *c09Case) quiesce() bool {
 	return c.s.Quiesce(time.Second)
 }
@@ -227,20 +241,14 @@ func (c *c09Case) finish() string {
 		q = st["TaskQueueSize"].(int)
 		sn := c.s.snapshot()
 		if stuck == "0" && q > 0 && sn.liveWorkers > 0 && sn.notWaiting == 0 && sn.inflight == 0 && sn.swcPend == 0 {
-			// stuck by the hook states: every worker is parked in Wait, nothing is in flight, a task is
-			// queued. Confirm: nothing moves during a grace period in which the Go scheduler provably ran
-			// freshly started goroutines (3 rounds of 50 ms).
-			rounds := 0
-			for k := 0; k < 40 && rounds < 3; k++ {
-				time.Sleep(50 * time.Millisecond)
-				if c.s.Records() != n {
-					break
-				}
-				if c09Heartbeat(50 * time.Millisecond) {
-					rounds++
-				}
-			}
-			if rounds == 3 && c.s.Records() == n {
+			// stuck by the hook states: every worker's last record is before-Wait, nothing is in flight, a
+			// task is queued. Confirm from the goroutine stacks (independent of the machine's load): every
+			// live worker is blocked in sync.Cond.Wait WITHOUT a pending notification (a notified goroutine
+			// is "runnable"), twice, with no record in between — then nothing will ever wake them.
+			p1, l1 := c.s.WorkersParked()
+			time.Sleep(20 * time.Millisecond)
+			p2, l2 := c.s.WorkersParked()
+			if p1 && p2 && l1 > 0 && l1 == l2 && c.s.Records() == n {
 				stuck = "1"
 			}
 		}
@@ -327,7 +335,8 @@ func (c *c09Case) finish() string {
 var c09Directed = []string{"lostwakeup-empty", "lostwakeup-locked", "lostwakeup-checked", "kill-vs-wait",
 	"kill-vs-wait-empty", "resize-up-burst", "resize-down-burst", "joinall-burst", "waitall-running", "plain",
 	"resize-overkill", "resize-undershoot", "resize-spin", "joinall-vs-resize", "joinall-vs-add", "zero-and-back",
-	"dependent", "nested-add", "joinall-vs-setworkercount"}
+	"dependent", "nested-add", "joinall-vs-setworkercount", "joinall-vs-wait", "resize-down-and-back",
+	"resize-superseded"}
 
 // cycleAndPark makes every worker go once through its loop and parks them at `point`
 // (workers that reach it), returns the rule. The workers are woken by adding and
@@ -459,14 +468,15 @@ func c09RunDirected(name string, W int) string {
 		c.quiesce()
 		r := s.AddRule("w*", "pool.get.empty", W)
 		jd := make(chan struct{})
-		go func() { s.Adopt(); c.joinAll(); close(jd) }()
+		var jt string
+		go func() { s.Adopt(); c.setThread(&jt); c.joinAll(); close(jd) }()
 		c.win = "0"
 		if r.WaitParked(W, 500*time.Millisecond) {
 			c.win = "1"
 		}
 		c.setWorkers(W+1, false)
 		s.Release(r)
-		c.awaitJoin(jd)
+		c.awaitJoin(jd, &jt)
 	case "joinall-vs-setworkercount":
 		// a SetWorkerCount(n>0) overwrites the request of a JoinAll that is being carried out (its workers,
 		// woken by JoinAll, are held before their kill check): SOME order must win, JoinAll must return
@@ -474,14 +484,64 @@ func c09RunDirected(name string, W int) string {
 		c.quiesce()
 		r := s.AddRule("w*", "pool.worker.head", W)
 		jd := make(chan struct{})
-		go func() { s.Adopt(); c.joinAll(); close(jd) }()
+		var jt string
+		go func() { s.Adopt(); c.setThread(&jt); c.joinAll(); close(jd) }()
 		c.win = "0"
 		if r.WaitParked(W, 500*time.Millisecond) {
 			c.win = "1"
 		}
 		c.setWorkers(W+1, false)
 		s.Release(r)
-		c.awaitJoin(jd)
+		c.awaitJoin(jd, &jt)
+	case "joinall-vs-wait":
+		// JoinAll's first Broadcast is not under L: a worker between its predicate check and Wait misses it and
+		// sleeps with workerKill = -1; JoinAll's loop has to broadcast again
+		c.setWorkers(W, false)
+		c.quiesce()
+		r := s.AddRule("w*", "pool.idle.beforeWait", 1)
+		c.add()
+		c.win = "0"
+		if r.WaitParked(1, 500*time.Millisecond) {
+			c.win = "1"
+		}
+		jd := make(chan struct{})
+		var jt string
+		go func() { s.Adopt(); c.setThread(&jt); c.joinAll(); close(jd) }()
+		s.WaitRecord("bc.j", 500*time.Millisecond)
+		s.Release(r)
+		c.awaitJoin(jd, &jt)
+	case "resize-down-and-back":
+		// shrink, then resize back to the old count while the kill requests are still pending (the woken
+		// workers are held before their kill check): the old count must result
+		c.setWorkers(W+2, false)
+		c.quiesce()
+		r := s.AddRule("w*", "pool.worker.head", W+2)
+		c.setWorkers(W, false)
+		c.win = "0"
+		if r.WaitParked(W+2, 500*time.Millisecond) {
+			c.win = "1"
+		}
+		c.setWorkers(W+2, false)
+		s.Release(r)
+	case "resize-superseded":
+		// a waiting resize that is superseded by a later one must return: W+2 busy workers,
+		// SetWorkerCount(W,true), then SetWorkerCount(W+1,true), the tasks finish
+		c.setWorkers(W+2, false)
+		for k := 0; k < W+2; k++ {
+			c.addTask(c.newID(), 0, -2)
+		}
+		for k := 0; k < 2000 && int(atomic.LoadInt32(&c.nStarted)) < W+2; k++ {
+			time.Sleep(100 * time.Microsecond)
+		}
+		ad, bd := make(chan struct{}), make(chan struct{})
+		var at, bt string
+		go func() { s.Adopt(); c.setThread(&at); c.setWorkers(W, true); close(ad) }()
+		s.WaitRecord("sd.2", 500*time.Millisecond)
+		go func() { s.Adopt(); c.setThread(&bt); c.setWorkers(W+1, true); close(bd) }()
+		s.WaitRecord("sd.1", 500*time.Millisecond)
+		close(c.gate)
+		c.awaitResize(bd, &bt, W+1)
+		c.awaitResize(ad, &at, W)
 	case "joinall-vs-add":
 		// tasks arrive while JoinAll is being carried out
 		c.setWorkers(W, false)
@@ -585,28 +645,46 @@ func (c *c09Case) joinWithAdds(n int) {
 	c.mu.Unlock()
 }
 
-// awaitJoin waits for a JoinAll running in another goroutine. JoinAll polls, so "it does not return"
-// is judged from the pool: the workers are quiescent and the Go scheduler provably ran fresh goroutines
-// for 6 rounds of 50 ms. A JoinAll that spins is reported (ja=bad) and then freed by emptying the pool.
-func (c *c09Case) awaitJoin(jd chan struct{}) {
-	c.quiesce()
-	rounds := 0
-	last := c.s.snapshot()
-	for k := 0; k < 200 && rounds < 6; k++ {
+// awaitJoin waits for a JoinAll running in another goroutine (thread label jt). "JoinAll does not
+// return" is never judged by wall-clock time alone:
+//   (1) JoinAll made >= 50 iterations of its OWN loop after a SetWorkerCount of another thread decided,
+//       without re-asserting its request and with workers left (its loop keeps the request up), or
+//   (2) the goroutine stacks show every live worker blocked in sync.Cond.Wait without a pending
+//       notification at two samples between which JoinAll made >= 50 iterations (its loop broadcasts).
+// A JoinAll that spins is reported (ja=bad) and then freed by emptying the pool. If neither holds
+// within 8 s the case is not judged (ja=ud, counted) and JoinAll is freed the same way.
+func (c *c09Case) awaitJoin(jd chan struct{}, jt *string) {
+	t0 := time.Now()
+	verdict := ""
+	var parkedAt = -1
+	for verdict == "" && time.Since(t0) < 8*time.Second {
 		select {
 		case <-jd:
 			return
-		case <-time.After(50 * time.Millisecond):
+		case <-time.After(5 * time.Millisecond):
 		}
-		sn := c.s.snapshot()
-		// spinning = the workers sit in Wait and nothing but JoinAll's identical polls is recorded
-		if sn.events != last.events || sn.notWaiting != 0 || sn.liveWorkers == 0 {
-			rounds = 0
-			last = sn
+		c.mu.Lock()
+		th := *jt
+		c.mu.Unlock()
+		if th == "" {
 			continue
 		}
-		if c09Heartbeat(50 * time.Millisecond) {
-			rounds++
+		if c.s.PollsSinceOverruled(th) >= 50 && c.s.snapshot().liveWorkers > 0 {
+			c.s.mu.Lock()
+			ws := c.s.lastWS[th]
+			c.s.mu.Unlock()
+			if ws[0] > 0 {
+				verdict = "bad"
+			}
+		}
+		if all, live := c.s.WorkersParked(); all && live > 0 {
+			if parkedAt < 0 {
+				parkedAt = c.s.Polls(th)
+			} else if c.s.Polls(th)-parkedAt >= 50 {
+				verdict = "bad"
+			}
+		} else {
+			parkedAt = -1
 		}
 	}
 	select {
@@ -614,12 +692,48 @@ func (c *c09Case) awaitJoin(jd chan struct{}) {
 		return
 	default:
 	}
+	if verdict == "" {
+		verdict = "ud"
+		CountRun("undetermined.joinall")
+	}
 	c.setWorkers(0, true)
 	<-jd
 	c.mu.Lock()
-	c.ja = "bad" // JoinAll did not return although the pool was quiescent
+	c.ja = verdict // "bad": JoinAll did not return although its own loop kept running
 	c.lastSet = -1
 	c.mu.Unlock()
+}
+
+// awaitResize waits for a SetWorkerCount(count, true) running in another goroutine (thread label t).
+// It is judged to spin when it made >= 50 iterations of its OWN polling loop after a later
+// SetWorkerCount of another thread decided (load independent); it is then freed by requesting its count
+// again. Not decided within 8 s: not judged.
+func (c *c09Case) awaitResize(done chan struct{}, t *string, count int) {
+	t0 := time.Now()
+	for time.Since(t0) < 8*time.Second {
+		select {
+		case <-done:
+			return
+		case <-time.After(2 * time.Millisecond):
+		}
+		c.mu.Lock()
+		th := *t
+		c.mu.Unlock()
+		if th != "" && c.s.PollsSinceOverruled(th) >= 50 {
+			c.mu.Lock()
+			c.rsMid = true // a superseded waiting resize does not return
+			c.mu.Unlock()
+			break
+		}
+	}
+	select {
+	case <-done:
+		return
+	default:
+	}
+	CountRun("freed.superseded-resize")
+	c.setWorkers(count, false)
+	<-done
 }
 
 func (c *c09Case) runProg(prog string) {
@@ -670,27 +784,31 @@ func (c *c09Case) runProg(prog string) {
 			// JoinAll overlapping a SetWorkerCount(n): whichever is decided last wins, both return
 			c.bg.Wait()
 			jd := make(chan struct{})
-			go func() { c.s.Adopt(); c.joinAll(); close(jd) }()
+			var jt string
+			go func() { c.s.Adopt(); c.setThread(&jt); c.joinAll(); close(jd) }()
 			c.setWorkers(n, false)
-			c.awaitJoin(jd)
+			c.awaitJoin(jd, &jt)
 			c.rsAlt = []int{0, n}
 		case 'n':
 			c.addTask(c.newID(), n, -1)
 		case 'd':
 			c.addDependent(n)
-		case 'X':
+		case 'X', 'Y':
+			// two concurrent resizers (Y: both wait for their count; the superseded one must return too)
 			var a, b int
 			fmt.Sscanf(op[1:], "%d.%d", &a, &b)
-			var wg sync.WaitGroup
-			for _, k := range []int{a, b} {
-				k := k
-				wg.Add(1)
-				go func() { defer wg.Done(); c.s.Adopt(); c.setWorkers(k, false) }()
+			wait := op[0] == 'Y'
+			dn := []chan struct{}{make(chan struct{}), make(chan struct{})}
+			ths := make([]string, 2)
+			for x, k := range []int{a, b} {
+				x, k := x, k
+				go func() { c.s.Adopt(); c.setThread(&ths[x]); c.setWorkers(k, wait); close(dn[x]) }()
 			}
-			wg.Wait()
+			c.awaitResize(dn[0], &ths[0], a)
+			c.awaitResize(dn[1], &ths[1], b)
 			c.rsAlt = []int{a, b}
 		}
-		if op[0] != 'X' && (op[0] == 'u' || op[0] == 'U') {
+		if op[0] == 'u' || op[0] == 'U' {
 			c.rsAlt = nil
 		}
 	}
@@ -820,7 +938,11 @@ func c09GenProg(r *Rand, W int, g *Gen) string {
 			}
 		case x == 12:
 			a, b := 1+r.Intn(6), 1+r.Intn(6)
-			ops = append(ops, fmt.Sprintf("X%d.%d", a, b))
+			if r.Intn(2) == 0 {
+				ops = append(ops, fmt.Sprintf("X%d.%d", a, b))
+			} else {
+				ops = append(ops, fmt.Sprintf("Y%d.%d", a, b))
+			}
 			cur = a
 			if b < a {
 				cur = b
